@@ -34,7 +34,14 @@ def replay_pair(run, pid, what, model, a, b, case, mask_some):
     nm = eval_int(model, a['nmask'])
     n = max(n, min(nm, n + 2))
     mask = [bool(engine.model_value(model, a['mask'](k))) for k in range(n)] if mask_some else None
-    normal = (1.0, 0.0, 0.0)
+    # the plane normal of the model (the rule may look at it), brought to unit length; axis-parallel fallback
+    import math
+    try:
+        nv = [float(engine.model_value(model, to_z3(x))) for x in a['n'].items]
+    except Exception:
+        nv = [1.0, 0.0, 0.0]
+    ln = math.sqrt(sum(x * x for x in nv))
+    normal = tuple(x / ln for x in nv) if ln > 0 else (1.0, 0.0, 0.0)
     payload = {'kind': 'face_rule_pair', 'i': i, 'j': j, 'mask': mask, 'dim': case.dim, 'shift': None, 'normal': normal}
     bad = check_pair_native(payload)
     if bad:
